@@ -22,12 +22,12 @@ SPEC = {
                   "update, delete/clear, element store, store to the field) to the documented lock-guarded containers HostMap.{Indexes, Relays, "
                   "RemoteIndexes, Hosts, moreHosts} (HostMap.RWMutex), RelayState.{relays, relayForByAddr, relayForByIdx} (RelayState.RWMutex), "
                   "HandshakeManager.{vpnIps, indexes} (HandshakeManager.RWMutex), LightHouse.addrMap (LightHouse.RWMutex) and RemoteList.{vpnAddrs, "
-                  "addrs, relays, cache, badRemotes} (RemoteList.RWMutex) holds that lock class IN WRITE MODE on every control-flow path from every "
+                  "addrs, relays, cache, badRemotes} (RemoteList.RWMutex) and HandshakeHostInfo.packetStore (HandshakeManager.RWMutex: the packet cache of a pending handshake, finding F31) holds that lock class IN WRITE MODE on every control-flow path from every "
                   "caller in the call graph (intra-procedural must-held dataflow, entry sets = intersection over all call sites, go/defer/external "
-                  "callers contribute nothing), or happens while the owning struct is a not-yet-escaped allocation of the same function; (b) a "
+                  "callers and closures handed to code outside the module contribute nothing; a function literal whose only use is as the argument for a call-only func parameter is entered with what its one call site holds), or happens while the owning struct is a not-yet-escaped allocation of the same function; (b) a "
                   "Relay object ('treat the pointed-to Relay struct as immutable', hostmap.go) is never written after publication: every store "
                   "into a *Relay goes to an allocation of the same function that cannot have escaped yet. The translator lists 130 write sites "
-                  "(15 Relay stores, 70 writes to the 16 documented containers, 45 to other mutex-carrying structs' containers that are listed "
+                  "(15 Relay stores, 73 writes to the 17 documented containers, 42 to other mutex-carrying structs' containers that are listed "
                   "but not judged); Coq re-checks the hand-written rule on the regenerated table by reflection and on every site reported by the "
                   "harness; a site that breaks it is reported with file:line, function and must-held set. Machine-checked general theorems: at "
                   "any instant at which write-mode locks are mutually exclusive and every write in progress holds the guard of its location, two "
